@@ -6,6 +6,9 @@
 //!                  `Message::serialize`; oracle: parses back to an equal message (also with trailing padding)
 //!   c41_malformed  the same datagrams mangled (truncations, length lies, bit flips, reserved bits set,
 //!                  TLV length lies), random bytes, large messages up to 4096 bytes
+//! c41_typed also has the op  sz ty=<type> seq=<n> cap=<n> tl=<TLV value lengths>  (size classes around the
+//! 16-bit messageLength limit: 65 5xx, 65 534 / 65 536 / 65 538, 70 000 .. 200 000 octets): serialise either
+//! fails or parses back equal.
 //! Both feed the op   de fill=<byte> cap=<n> pkt=<hex>
 //! = `Message::deserialize(pkt)`, dump of the parsed message, and its re-serialisation into a `cap`-byte
 //! buffer pre-filled with `fill`.  Observation: `err:<Kind>` | `ok h=.. b=.. s=<suffix> re=<bytes|err:Kind>`.
@@ -324,6 +327,142 @@ fn only_reserved_differs(pkt: &[u8], re: &[u8], fill: u8) -> bool {
     true
 }
 
+
+// ---------------------------------------------------------------------------------------------
+// size classes around the 16-bit messageLength limit (op `sz`): a message given by a few parameters
+// (fixed simple header with sequence id `seq`, body of type `ty` with fixed field values, TLVs of type
+// 0x0003 whose k-th value is `len` octets of the byte k), serialised into a zeroed `cap`-octet buffer.
+
+fn sz_body(ty: u8) -> Option<MessageBody> {
+    let ts = Timestamp::new(1, 2).unwrap();
+    let port = PortIdentity { clock_identity: ClockIdentity([1, 2, 3, 4, 5, 6, 7, 8]), port_number: 9 };
+    Some(match ty {
+        0 => MessageBody::Sync(SyncMessage { origin_timestamp: ts }),
+        2 => MessageBody::PDelayReq(PDelayReqMessage { origin_timestamp: ts }),
+        3 => MessageBody::PDelayResp(PDelayRespMessage { request_receive_timestamp: ts, requesting_port_identity: port }),
+        8 => MessageBody::FollowUp(FollowUpMessage { precise_origin_timestamp: ts }),
+        11 => MessageBody::Announce(AnnounceMessage {
+            origin_timestamp: ts,
+            current_utc_offset: 37,
+            grandmaster_priority_1: 128,
+            grandmaster_clock_quality: ClockQuality { clock_class: 248, clock_accuracy: ClockAccuracy::Unknown, offset_scaled_log_variance: 0x4e5d },
+            grandmaster_priority_2: 127,
+            grandmaster_identity: ClockIdentity([1, 2, 3, 4, 5, 6, 7, 8]),
+            steps_removed: 3,
+            time_source: TimeSource::InternalOscillator,
+        }),
+        13 => MessageBody::Management(ManagementMessage {
+            target_port_identity: port,
+            starting_boundary_hops: 1,
+            boundary_hops: 2,
+            action: ManagementAction::from_primitive(0),
+        }),
+        _ => return None,
+    })
+}
+
+fn checksum(b: &[u8]) -> u64 {
+    b.iter().fold(0u64, |acc, x| (acc * 31 + *x as u64) % 4294967296)
+}
+
+fn exec_sz(run: &mut Run, rest: &[&str]) -> String {
+    let ty: u8 = kv(rest, "ty").unwrap().parse().unwrap();
+    let seq: u16 = kv(rest, "seq").unwrap().parse().unwrap();
+    let cap: usize = kv(rest, "cap").unwrap().parse().unwrap();
+    let lens: Vec<usize> = match kv(rest, "tl").unwrap() {
+        "-" => vec![],
+        s => s.split(',').map(|x| x.parse().unwrap()).collect(),
+    };
+    let Some(body) = sz_body(ty) else { return "bad-op".to_string() };
+    let total_tlv: usize = lens.iter().map(|l| 4 + l).sum();
+    let mut tlv_buf = vec![0u8; total_tlv];
+    let mut builder = TlvSetBuilder::new(&mut tlv_buf);
+    for (k, l) in lens.iter().enumerate() {
+        let val = vec![k as u8; *l];
+        if builder.add(&Tlv { tlv_type: TlvType::from_primitive(3), value: val.as_slice().into() }).is_err() {
+            return "err:tlv".to_string();
+        }
+    }
+    let mut header = Header::new(1);
+    header.sequence_id = seq;
+    let msg = Message { header, body, suffix: builder.build() };
+    let total = 34 + total_tlv + (msg.wire_size() - 34 - total_tlv);
+    let mut buf = vec![0u8; cap];
+    match msg.serialize(&mut buf) {
+        Err(e) => {
+            run.hit(&format!("sz-{}", err_str(&e)));
+            err_str(&e).to_string()
+        }
+        Ok(n) => {
+            let out = &buf[..n];
+            // ---- the property: whatever the library serialises parses back to an equal message
+            let back = match Message::deserialize(out) {
+                Ok(m2) if m2 == msg => "eq".to_string(),
+                Ok(_) => "neq".to_string(),
+                Err(e) => err_str(&e).to_string(),
+            };
+            if back != "eq" || n != total {
+                run.oracle_fail(
+                    "ser_then_parse",
+                    &format!("enum_payload_out_of_domain=0 size={}", total),
+                    &format!("a {}-octet message (type {}, TLV value lengths {:?}) serialises to {} octets (messageLength field {}) and parses back: {}", total, ty, lens, n, u16::from_be_bytes([out[2], out[3]]), back),
+                );
+            }
+            run.hit(if total >= 65000 { "sz-serialised-large" } else { "sz-serialised" });
+            run.nontrivial(&format!("sz {} {}", ty, total));
+            format!("ok len={} head={} sum={} back={}", n, hex(&out[..n.min(40)]), checksum(out), back)
+        }
+    }
+}
+
+/// TLV value lengths (even, each < 65536) making the suffix exactly `sfx` octets (`sfx` even, 0 or >= 4)
+fn split_tlvs(rng: &mut Rng, mut sfx: usize) -> Vec<usize> {
+    let mut v = vec![];
+    while sfx > 0 {
+        let max_here = (sfx - 4).min(65534);
+        let mut l = if sfx - 4 <= 65534 && rng.chance(2, 3) { sfx - 4 } else { (rng.usize(0, max_here / 2)) * 2 };
+        // never leave a remainder of 2 (a TLV needs 4 octets)
+        if sfx - 4 - l == 2 {
+            l = if l >= 2 { l - 2 } else { l + 2 };
+        }
+        v.push(l);
+        sfx -= 4 + l;
+        if v.len() > 8 && sfx > 0 {
+            // finish quickly
+            continue;
+        }
+    }
+    v
+}
+
+fn gen_sz(rng: &mut Rng, k: u64) -> String {
+    let ty = *rng.pick(&[0u8, 0, 2, 3, 8, 11, 13]);
+    let ws = match ty { 2 | 3 => 20, 11 => 30, 13 => 14, _ => 10 };
+    let total: usize = match k % 12 {
+        0 => 65536,
+        1 => 65534,
+        2 => 65538,
+        3 => 65532,
+        4 => 65580,
+        5 => 65500 + 2 * rng.usize(0, 50),
+        6 => 65500 + 2 * rng.usize(0, 50),
+        7 => 131072 + 44,
+        8 => 70000 + 2 * rng.usize(0, 1000),
+        9 => 200000,
+        10 => 65536 + 2 * rng.usize(0, 3),
+        _ => 60000 + 2 * rng.usize(0, 2767),
+    };
+    let total = total.max(34 + ws + 4);
+    let lens = split_tlvs(rng, total - 34 - ws);
+    let cap = match rng.below(6) {
+        0 => total - 2,
+        1 => total,
+        _ => total + 64,
+    };
+    let tl = if lens.is_empty() { "-".to_string() } else { lens.iter().map(|l| l.to_string()).collect::<Vec<_>>().join(",") };
+    format!("sz ty={} seq={} cap={} tl={}", ty, rng.below(65536), cap, tl)
+}
+
 fn exec_case(ops: &[String], run: &mut Run) {
     for op in ops {
         run.begin_op(op);
@@ -372,6 +511,10 @@ fn exec_case(ops: &[String], run: &mut Run) {
                     }
                 }
             }
+            ["sz", rest @ ..] => {
+                let obs = exec_sz(run, rest);
+                run.end_op(&obs);
+            }
             _ => run.end_op("bad-op"),
         }
     }
@@ -408,6 +551,10 @@ fn entry() {
                     run.guarded_case(idx, |r| {
                         let n = rng.usize(1, 3);
                         let mut ops = vec![];
+                        // size classes around the 16-bit messageLength limit: cases 0..11, then every 250th
+                        if idx < 12 || idx % 250 == 0 {
+                            ops.push(gen_sz(&mut rng, if idx < 12 { idx } else { idx / 250 }));
+                        }
                         for _ in 0..n {
                             let big = rng.chance(1, 50);
                             let bytes = gen_typed(&mut rng, Some(r), big);
